@@ -285,7 +285,7 @@ def count_jumps(fn, limit=None) -> tuple[int, tuple | None]:
     return _CLOCK.n, out
 
 
-PHASE1_SECONDS = 5.0
+PHASE1_SECONDS = 2.0
 
 
 def guarded(fn, base_fn=None):
@@ -304,7 +304,9 @@ def guarded(fn, base_fn=None):
         signal.signal(signal.SIGALRM, old)
     base_jumps = 0
     if base_fn is not None:
-        base_jumps, _ = count_jumps(base_fn, limit=5_000_000)
+        base_jumps, base_out = count_jumps(base_fn, limit=1_000_000)
+        if base_out and base_out[0] == "budget":
+            base_jumps = 0  # the undamaged base does not terminate either: it is judged on its own
     limit = 30 * base_jumps + 20_000
     _, out = count_jumps(fn, limit=limit)
     return out, True
